@@ -1346,3 +1346,5 @@ anchor("G_numeric", "navier_stokes")(_dyn_anchor("navier_stokes", "NavierStokes2
                                                   attrs={"u_key": "u", "p_key": "p"}, dim=2, dict_style=True))
 anchor("G_numeric", "glv2")(_dyn_anchor("glv2", "GeneralizedLotkaVolterra", True, {"growth_rate": 0, "carrying_capacity": 1, "interactions": 2},
                                          {"m": 0, "k1": 1, "k2": 2}, 1, attrs={"key_main": "m", "keys_other": ["k1", "k2"]}, dict_style=True))
+
+import anchors_reduce  # noqa: E402,F401  (registers G_reduce)
